@@ -229,26 +229,26 @@ TABLE = {
 
 # what rounds 3 and 4 of the seeded campaign added to every check (DESIGN.md section 11.5): appended to the level text
 ADDENDA = {
-    "C01": "Also enumerated: construction routes of the models (re-initialised parameter objects, the calibration loop), histories on re-used model / grid objects and the engine's deepcopy-then-next_level route, argument forms of every constructor, copies (copy / deepcopy / dill), caller's arguments left untouched, sizes up to 33001 states.",
-    "C02": "Also enumerated: histories with cost reset, copies, batch calls and a second sampler on the same grid; exact-point verdicts for the never-clauses; vectors beyond 256 / 32768 / 65536 entries; argument forms; the un-cached branch of the n-d adapted tree.",
+    "C01": "Also enumerated: construction routes of the models (re-initialised parameter objects, the calibration loop), histories on re-used model / grid objects and the engine's deepcopy-then-next_level route, argument forms of every constructor, copies (copy / deepcopy / dill), caller's arguments left untouched, sizes up to 33001 states. Narrow cells (h = 1e-9 / 1e-8, the benchmarks' h0 = 1e-6 credit grids, states 1e-6 apart far from the origin) with a tolerance relative to the rate.",
+    "C02": "Also enumerated: histories with cost reset, copies, batch calls and a second sampler on the same grid; exact-point verdicts for the never-clauses; vectors beyond 256 / 32768 / 65536 entries; argument forms; the un-cached branch of the n-d adapted tree. n-d grids with markedly fewer points on one side of the origin than on the other, and the mirror image.",
     "C03": "Also enumerated: both next_level routes (with path managers, and path_managers=None as the SDE coupling uses it), simulation straight after next_level without a second pre-computation, several jumps per interval in 1, 2 and 3 dimensions, engine-like histories (simulate, deepcopy, next_level), dill copies.",
-    "C04": "Also enumerated: histories of initialisations on one chain, the Brownian scale the simulators really apply (recovered from scripted draws), two-hop representation changes, ties (activity index exactly 1 and 0, states on the cut-off), argument forms, copies, the engine's route to deeper levels.",
+    "C04": "Also enumerated: histories of initialisations on one chain, the Brownian scale the simulators really apply (recovered from scripted draws), two-hop representation changes, ties (activity index exactly 1 and 0, states on the cut-off), argument forms, copies, the engine's route to deeper levels. Asymmetric truncations with exactly one bound beyond the big-jump cut-off; re-parametrisations that cross a regime boundary (activity index across 1 and 0, sigma 0 <-> positive) against fresh models.",
     "C05": "Also enumerated: the pool branch through a simulated pool, every reading order of the reported statistics, re-priced engines, copies of engines / statistics / results taken mid-run, degenerate sizes (0 and 1 initial path) and runs beyond 2^16 rows.",
-    "C06": "Also enumerated: histories of two or three pricings in one process (shared default rates object), non-monotone level means with the bias tolerance measured in every direction of the last three means, argument forms of the allocation and stopping functions, copies of the configuration.",
-    "C07": "Also enumerated: histories of two or three pricings on one engine (other numbers of paths, configurations, products; earlier results re-read), the pool branch through a simulated pool with path counts that are not multiples of the number of workers, argument forms, caller's arrays left untouched.",
+    "C06": "Also enumerated: histories of two or three pricings in one process (shared default rates object), non-monotone level means with the bias tolerance measured in every direction of the last three means, argument forms of the allocation and stopping functions, copies of the configuration. Both vectors integer-typed with products beyond int8 .. int64 and Python ints beyond 2^64 judged in exact rationals; rmse as numpy integer scalars.",
+    "C07": "Also enumerated: histories of two or three pricings on one engine (other numbers of paths, configurations, products; earlier results re-read), the pool branch through a simulated pool with path counts that are not multiples of the number of workers, argument forms, caller's arrays left untouched. Path-dependent controls on the product's own underlying type; default-time products on scripted paths with separate jump and diffusion components; simulated path objects unchanged by pricing.",
     "C08": "Also enumerated: histories of pricings on re-used engines / processes / configurations compared with fresh objects, seed 0 and nb_of_processes=None (scripted cpu count), generator objects captured by library objects and cloned by pickling, conformance cases that recover the variates of real pool runs.",
-    "C09": "Also enumerated: construction histories of the models (re-initialised, calibration loop, after another object, deepcopy, dill), nested truncations, argument forms of end points and truncations, boundary parameter values (g = 0, m = 0, wide and narrow jump laws), degenerate intervals.",
+    "C09": "Also enumerated: construction histories of the models (re-initialised, calibration loop, after another object, deepcopy, dill), nested truncations, argument forms of end points and truncations, boundary parameter values (g = 0, m = 0, wide and narrow jump laws), degenerate intervals. The empty interval [0, 0] for every family and activity class through every route and through one-sided truncations; parameters two ulps .. 1e-4 from every special value of the code at relative 1e-7; orders 20 .. 30 against 30-digit references.",
     "C10": "Also enumerated: construction routes of the models, histories of requests on one process object, coupling levels, argument forms of every array-taking function with caller's arrays left untouched and kept arrays re-used, copies re-parametrised on either side.",
-    "C11": "Also enumerated: copulas with a history (setters, copy / deepcopy / pickle in both directions, another object in between) against fresh objects, arguments of magnitude 1e-300 .. 1e300 and -0.0, argument forms, arguments left untouched, vectorised versus element-wise inverse.",
-    "C12": "Also enumerated: construction routes of the model (re-initialised margins, copula re-parametrised or replaced on a used model), zero written as -0.0 in both query orders, spellings of the end points, copies with populated caches re-parametrised on either side, inverse tail integrals beyond the attainable range, sweeps larger than the memo.",
-    "C13": "Also enumerated: histories on one re-used model object (mutations between two constructions), twins and copies refined in interleaved order, argument forms including integral h, heavy-tailed models whose truncation root is not bracketed, deep refinement with a gap-relative oracle for the probability-step grid.",
-    "C14": "Also enumerated: domains with boundaries, the real inversion sampler driven beyond a full (scaled-down) log, Domains re-used after refinement, one-sided intervals and grids, argument forms, copies taken mid-enumeration.",
+    "C11": "Also enumerated: copulas with a history (setters, copy / deepcopy / pickle in both directions, another object in between) against fresh objects, arguments of magnitude 1e-300 .. 1e300 and -0.0, argument forms, arguments left untouched, vectorised versus element-wise inverse. Degenerate rectangles (a_i == b_i on one, two or all axes; lower ends -inf) through the library's volume and an independent signed sum.",
+    "C12": "Also enumerated: construction routes of the model (re-initialised margins, copula re-parametrised or replaced on a used model), zero written as -0.0 in both query orders, spellings of the end points, copies with populated caches re-parametrised on either side, inverse tail integrals beyond the attainable range, sweeps larger than the memo. Single-difference twins: for every margin family and every constructor parameter in turn two models alive that differ in exactly that one thing, asked alternately, with equality / hash hygiene.",
+    "C13": "Also enumerated: histories on one re-used model object (mutations between two constructions), twins and copies refined in interleaved order, argument forms including integral h, heavy-tailed models whose truncation root is not bracketed, deep refinement with a gap-relative oracle for the probability-step grid. Models whose one-sided masses are equal (bit-equal, or within 1e-5 / 1e-8) while the tails differ, each truncation bound judged against its own promise, at h down to 1e-9.",
+    "C14": "Also enumerated: domains with boundaries, the real inversion sampler driven beyond a full (scaled-down) log, Domains re-used after refinement, one-sided intervals and grids, argument forms, copies taken mid-enumeration. Log bounds of 256 .. 65536 states with the restart protocol driven with distinct-but-equal int objects and numpy integers; whole hyperbolas chosen by the factor structure of n around 2^4 .. 2^16; coordinates around 2^15 .. 2^64 in d = 2, 3, 4 against closed forms in Python ints.",
     "C15": "Also enumerated: kept paths re-read after later paths / pre-computations / copies, pool-like copies of the simulators between pre-computation and simulation, ties (jump on a date, epsilon equal to the maturity or a gap), zero-path pre-computations, 24-26 dates, argument forms.",
-    "C16": "Also enumerated: a second object of the same classes simulated in between, purity of the coefficient and discount functions against a fresh interpreter, re-used schemes with other maturities, unequal tenor periods, integer tenor dates, re-initialised drivers.",
+    "C16": "Also enumerated: a second object of the same classes simulated in between, purity of the coefficient and discount functions against a fresh interpreter, re-used schemes with other maturities, unequal tenor periods, integer tenor dates, re-initialised drivers. Driver steps at and below -100 % (sign flips, exact zeros) for every coefficient class, and a real driver with mass below -1.",
     "C17": "Also enumerated: inputs left untouched by evaluation, a second consumer of the same path, real path managers with spot statistics and controls, array-like terms in every legal form with the caller's container overwritten afterwards, scalar terms as numpy / int forms, copies (copy / deepcopy / dill).",
     "C18": "Also enumerated: histories of queries and operations on one pricer against fresh pricers, strike vectors beyond the 2^22 / n block size against element-wise calls, argument forms, caller's arrays left untouched, copies, non-default COS constants with their own budgets, re-initialised models.",
-    "C19": "Also enumerated: histories on re-used payoffs, pricers and chains (public attributes re-assigned, copies, another object in between), threshold vectors in every legal form with the caller's container refilled afterwards, ties between names, re-initialised margins.",
-    "C20": "Also enumerated: histories of calibrations over a scene of re-used models sharing parameter objects, input models reached by six routes, reversed intervals, non-default maturities / volatilities / market data, constraint factories on seven assignment routes with non-finite values.",
+    "C19": "Also enumerated: histories on re-used payoffs, pricers and chains (public attributes re-assigned, copies, another object in between), threshold vectors in every legal form with the caller's container refilled afterwards, ties between names, re-initialised margins. Single-difference twins of copula models (every margin parameter, copula parameter, order of the margins) asked alternately at the same thresholds and grids.",
+    "C20": "Also enumerated: histories of calibrations over a scene of re-used models sharing parameter objects, input models reached by six routes, reversed intervals, non-default maturities / volatilities / market data, constraint factories on seven assignment routes with non-finite values. Re-calibration histories from already (almost) calibrated start models: quotes moved by relative 0, 1e-9 .. 1e-2, chains, rounded start values, half intervals; the answer must not depend on the start value.",
 }
 
 READY = []  # filled from checks/ below; a module must define PID
